@@ -35,7 +35,7 @@ contract("uxarray.grid.grid.Grid.__ne__", props=["C20"],
 contract("uxarray.grid.grid.Grid.__init__", props=["C20"], variant="format",
          sizes=["n_node", "n_edge", "n_face"],
          # the longitude wrap at the end of __init__ is used through its own contract (contracts/lonrange.py), on a dataset of that shape
-         params={"self": "obj('Grid')", "grid_ds": "obj('Dataset', owner='self', vars={'node_lon': \"arr(real, n_node, owner='caller')\", "
+         params={"self": "obj('Grid')", "grid_ds": "obj('Dataset', owner='self', ds_attrs=True, vars={'node_lon': \"arr(real, n_node, owner='caller')\", "
                                                    "'edge_lon': \"arr(real, n_edge, owner='caller')\", 'face_lon': \"arr(real, n_face, owner='caller')\"})", "source_grid_spec": "optional(opaque('str'))", "source_dims_dict": "opaque"},
          returns="none",
          ensures=["same(self.source_grid_spec, source_grid_spec)"],
